@@ -407,6 +407,9 @@ func init() {
 		Rule:     "non-interference argument whose premises the solver-backed executor checks on the real code: (i) in two-tree interleavings no memory location is touched by operations of both trees (with a write among them) except objects handed over through sync.Pool.Put/Get, and no package-level variable is written outside init; (ii) read-only queries on byte-string/numeric trees perform no store to memory that existed before the call. Under (i),(ii) every interleaving of such operations is data-race free and equivalent to a sequential one (ownership argument; Go memory model and sync.Pool trusted).",
 		Scenarios: func(c *CheckRun) []*Scenario {
 			out := twoTemplates(c, 0)
+			for _, s := range out {
+				s.Params[3] |= ckPure // switch the footprint assertion on
+			}
 			// reader premise: the pure queries of C15 (which <= 5) on every family
 			pure := pureScenarios(c)
 			for _, s := range pure {
